@@ -613,6 +613,38 @@ func run(c caseSpec) (fail string, labels map[string]bool, hist []string) {
 			// a piece nobody has: only a web seed could supply it
 			t.Request(uint32(s.A%6), 1, true, false)
 			o := take()
+			if K.webseeds && (s.A/6)%2 == 0 {
+				// web seeds are switched off right behind the fetch, within the
+				// same second: whatever a fetch does about a failure (the seed
+				// here never delivers), nothing may go to the seed once the
+				// switch has been acknowledged
+				if f := check(o, what); f != "" {
+					return f, labels, hist
+				}
+				if err := t.SetConf(peer.TorConf{DhtMode: K.dht, UseTrackers: K.trackers, UseWebseeds: false}); err != nil {
+					return "SetConf: " + err.Error() + describe(), labels, hist
+				}
+				K.webseeds = false
+				seen[K.String()] = true
+				hist = append(hist, "web seeds switched off at once")
+				what += ", web seeds switched off at once"
+				o1 := take()
+				time.Sleep(3 * time.Second)
+				o2 := take()
+				o2.ws += o1.ws
+				o2.anns = append(o1.anns, o2.anns...)
+				o2.dhts = append(o1.dhts, o2.dhts...)
+				if f := check(o2, what); f != "" {
+					return f, labels, hist
+				}
+				if o.ws > 0 {
+					labels["webseeds switched off right behind a failed fetch"] = true
+					labels["ws-backoff"] = true
+				}
+				labels["webseeds on->off"] = true
+				t.Request(uint32(s.A%6), 1, false, false)
+				continue
+			}
 			time.Sleep(3 * time.Second)
 			o2 := take()
 			o.ws += o2.ws
